@@ -9,8 +9,9 @@ from ..oracles import tm_exact
 
 RULE = ("(a) geographic positions of C01 -> grid -> geographic; (b) grid coordinates drawn directly on every zone / "
         "hemisphere / ellipsoid / projection (uniform, 100 km lattice, boundaries) -> geographic -> grid; (c) "
-        "hemisphere mirror pairs; (d) differential against Standalone/mga2gda.py; non-trivial = more than 1 km off both "
-        "the central meridian and the equator")
+        "hemisphere mirror pairs; (d) differential against Standalone/mga2gda.py, function and batch-file path (1..40 rows, unsorted / "
+        "repeated ids); (e) latitudes outside the band in every call form; floats, ints, numpy scalars; non-trivial = more than 1 km "
+        "off both the central meridian and the equator")
 ASSUMPTIONS = ["'within 2e-9 degrees' is read as great-circle separation sqrt(dlat^2 + (cos(lat) dlon)^2) (DESIGN 2): the "
                "forward result is rounded to 0.1 mm by design, which is 4e-9 deg of *longitude* at latitude 84",
                "the mirror relation is asserted for projections whose false northing is 10 000 000 m, as stated",
